@@ -4132,7 +4132,10 @@ class Generator:
         return self.binary(expression, "<<")
 
     def bitwisenot_sql(self, expression: exp.BitwiseNot) -> str:
-        return f"~{self.sql(expression, 'this')}"
+        # This makes sure we don't convert "~ ~x" to "~~x", which is the LIKE operator
+        this_sql = self.sql(expression, "this")
+        sep = " " if this_sql[:1] == "~" else ""
+        return f"~{sep}{this_sql}"
 
     def bitwiseor_sql(self, expression: exp.BitwiseOr) -> str:
         return self.binary(expression, "|")
